@@ -171,8 +171,28 @@ pub fn check(env: &Env, c: &Case, st: &mut Stats) -> CaseResult {
                 }
             }
         }
-        // reference model of `ans`
+        // reference model of `ans`: only a *plain expression* may set it - a conversion, a
+        // command or a definition lookup leaves it alone whatever form its reply takes. The
+        // class of the query is read off its parse (rink's parser, which eval() shares, but not
+        // the evaluator whose replies are being judged).
+        let plain = matches!(
+            catch(|| {
+                let mut it = rink_core::parsing::text_query::TokenIterator::new(q.trim()).peekable();
+                rink_core::parsing::text_query::parse_query(&mut it)
+            }),
+            Ok(rink_core::ast::Query::Expr(_))
+        );
+        if !plain {
+            st.class("step_not_a_plain_expression");
+        }
         match &got {
+            Ok(QueryReply::Number(_)) | Ok(QueryReply::Duration(_)) if !plain => {
+                st.class("numeric_reply_to_a_conversion_or_command");
+                if seen_number {
+                    nonnumber_after_number = true;
+                }
+                last_failed = false;
+            }
             Ok(QueryReply::Number(p)) => {
                 st.class("step_number");
                 if c.flag {
